@@ -144,6 +144,32 @@ func (p *Prog) Func(rel, name string) *ssa.Function {
 	if i := strings.Index(name, "."); i >= 0 {
 		tn, mn := name[:i], name[i+1:]
 		obj := sp.Pkg.Scope().Lookup(tn)
+		if obj == nil && !token.IsExported(tn) {
+			// an unexported type may have been renamed: the only unexported named type of the package that has the method
+			var cands []types.Object
+			for _, n := range sp.Pkg.Scope().Names() {
+				o, isT := sp.Pkg.Scope().Lookup(n).(*types.TypeName)
+				if !isT || token.IsExported(n) {
+					continue
+				}
+				for _, tt := range []types.Type{o.Type(), types.NewPointer(o.Type())} {
+					ms := p.SSA.MethodSets.MethodSet(tt)
+					found := false
+					for i := 0; i < ms.Len(); i++ {
+						if ms.At(i).Obj().Name() == mn && ms.At(i).Obj().Pkg() == sp.Pkg {
+							found = true
+						}
+					}
+					if found {
+						cands = append(cands, o)
+						break
+					}
+				}
+			}
+			if len(cands) == 1 {
+				obj = cands[0]
+			}
+		}
 		if obj == nil {
 			return nil
 		}
